@@ -87,9 +87,7 @@ func (lc *LocalClient) AddVersion(v Version, deps []RequirementVersion) {
 
 	// Keep private copies of the attributes: an AttrSet holds a map, which
 	// would otherwise stay shared with the caller's Version.
-	if !v.AttrSet.Empty() {
-		v.AttrSet = v.AttrSet.Clone()
-	}
+	v.AttrSet = v.AttrSet.Clone()
 
 	versions := lc.PackageVersions[v.PackageKey]
 	// If an equivalent version already exists, replace it to use the new
@@ -115,9 +113,7 @@ func (lc *LocalClient) AddVersion(v Version, deps []RequirementVersion) {
 	deps = slices.Clone(deps)
 	for i := range deps {
 		// slices.Clone is shallow: a dep.Type holds a map.
-		if !deps[i].Type.IsRegular() {
-			deps[i].Type = deps[i].Type.Clone()
-		}
+		deps[i].Type = deps[i].Type.Clone()
 	}
 	SortDependencies(deps)
 	lc.imports[v.VersionKey] = deps
